@@ -24,15 +24,23 @@ ID = "C15"
 LEVEL = "exploration"
 TECHNIQUE = "runtime monitoring: algebraic oracle (pyanalyze's own is_assignable) on real solver return values + permutation differential"
 RULE = (
-    "direct case = a multiset of Bound objects (LowerBound/UpperBound over a 15-value pool [21 in thorough]: bool,int,"
-    "float,str,object,None,Literal[1],Literal['x'],list[int],list[object],int|str,int|None,A,B(A),C; IsOneOf over 7 "
-    "[10] constraint lists; 2 OrBounds), enumerated EXHAUSTIVELY for sizes 1..4 with repetition, every distinct "
-    "permutation passed to resolve_bounds_map (thorough adds a seeded sample of size-5 multisets, all 120 "
-    "permutations each). Non-trivial = the multiset has >= 2 mutually incomparable bounds of one kind, or bounds of "
-    ">= 2 different kinds; distinct by multiset. end-to-end case = (generic signature family, argument tuple): 19 "
-    "families (T,T / list[T],T / dict[K,V],K / Callable[[T],U],T / two Callable[[T],None] / +T / bounded / "
-    "constrained) x the cross product of typed argument expressions; every permutation of parameters+arguments is "
-    "checked in one generated module and the verdicts compared; reveal_type of each call recorded."
+    "direct case = a multiset of Bound objects: LowerBound/UpperBound over a 14-value pool (bool,int,float,str,object,"
+    "None,Literal[1],list[int],list[object],int|str,int|None,A,B(A),C; thorough 21 values: + Literal['x'],complex,"
+    "bytes,Literal[True],A|C,list[A],list[B]), IsOneOf over 6 [thorough 10] constraint lists, 1 [2] OrBound; "
+    "enumerated EXHAUSTIVELY for sizes 1..4 (quick: with repetition up to size 3, size 4 without - the solver drops "
+    "duplicates first; thorough: with repetition throughout), every distinct permutation passed to "
+    "resolve_bounds_map; thorough adds a seeded sample of size-5 sets, all 120 permutations each. Non-trivial = the "
+    "multiset has >= 2 mutually incomparable bounds of one kind, or bounds of >= 2 different kinds; distinct by "
+    "multiset. end-to-end case = (generic signature family, argument tuple): 19 families (T,T / list[T],T / "
+    "dict[K,V],K / Callable[[T],U],T / two Callable[[T],None] / the same + T / T,T,T / bounded / constrained) x the "
+    "cross product of literal and typed argument expressions; every permutation of parameters+arguments is checked "
+    "in one generated module, the verdicts compared, reveal_type of each call recorded, and the solver call made for "
+    "each accepted call judged in situ by the same oracle."
+)
+LEVEL_TEXT = (
+    "exhaustive over the stated bound pool up to 4 bounds in all orders (so every key is seed-independent); sampled "
+    "beyond; the oracle is pyanalyze's own assignability relation, so a defect shared by solver and relation is "
+    "invisible here (C03/C04 own the relation)"
 )
 ASSUMPTIONS = [
     "the oracle is pyanalyze's own Value.is_assignable with a fresh Checker() (the relation the property's wording "
@@ -44,11 +52,11 @@ ASSUMPTIONS = [
     "in-situ observation rebinds pyanalyze.signature.resolve_bounds_map to a pass-through recording wrapper",
 ]
 FLOORS = {
-    "quick": {"distinct_nontrivial": 50000, "solver_calls": 1000000, "multisets": 60000, "verdict_error": 100000,
-              "verdict_ok": 100000, "e2e_cases": 1500, "e2e_accepted": 500, "e2e_diagnosed": 500,
-              "e2e_insitu_checked": 500},
-    "thorough": {"distinct_nontrivial": 200000, "solver_calls": 6000000, "multisets": 250000, "e2e_cases": 1500,
-                 "size5_multisets": 10000},
+    "quick": {"distinct_nontrivial": 32000, "multisets": 30000, "solver_calls": 650000, "verdict_error": 500000,
+              "verdict_ok": 90000, "e2e_cases": 2000, "e2e_accepted": 1500, "e2e_diagnosed": 3400,
+              "e2e_insitu_checked": 3200},
+    "thorough": {"distinct_nontrivial": 230000, "multisets": 230000, "size5_multisets": 19000,
+                 "solver_calls": 5000000, "verdict_ok": 500000, "e2e_cases": 2000, "e2e_insitu_checked": 3200},
 }
 NSHARDS = 16
 WATCHDOG_S = {"quick": 900, "thorough": 7200}
@@ -115,25 +123,36 @@ def _st():
     return _STATE
 
 
-QUICK_VALUES = ["bool", "int", "float", "str", "object", "None", "Literal[1]", "Literal['x']", "list[int]",
-                "list[object]", "int|str", "int|None", "A", "B", "C"]
-THOROUGH_VALUES = QUICK_VALUES + ["complex", "bytes", "Literal[True]", "A|C", "list[A]", "list[B]"]
-QUICK_CONSTRAINTS = ["int,str", "int,float", "A,C", "A,B", "int|None,str|None", "list[int],list[object]", "str,bytes"]
-THOROUGH_CONSTRAINTS = QUICK_CONSTRAINTS + ["float,str", "object,int", "B,C"]
-ORBOUNDS = ["L:int/L:str", "U:int/U:A"]
+QUICK_VALUES = ["bool", "int", "float", "str", "object", "None", "Literal[1]", "list[int]", "list[object]", "int|str",
+                "int|None", "A", "B", "C"]
+THOROUGH_VALUES = QUICK_VALUES + ["Literal['x']", "complex", "bytes", "Literal[True]", "A|C", "list[A]", "list[B]"]
+QUICK_CONSTRAINTS = ["int,str", "int,float", "A,C", "A,B", "int|None,str|None", "list[int],list[object]"]
+THOROUGH_CONSTRAINTS = QUICK_CONSTRAINTS + ["str,bytes", "float,str", "object,int", "B,C"]
+QUICK_ORBOUNDS = ["L:int/L:str"]
+THOROUGH_ORBOUNDS = QUICK_ORBOUNDS + ["U:int/U:A"]
 
 
 def bound_ids(tier: str) -> list:
     """Bound identifiers are JSON-able pairs (kind, name)."""
-    values = QUICK_VALUES if tier == "quick" else THOROUGH_VALUES
-    cons = QUICK_CONSTRAINTS if tier == "quick" else THOROUGH_CONSTRAINTS
+    quick = tier == "quick"
+    values = QUICK_VALUES if quick else THOROUGH_VALUES
     out = [("L", v) for v in values] + [("U", v) for v in values]
-    out += [("O", c) for c in cons]
-    out += [("Or", o) for o in ORBOUNDS]
+    out += [("O", c) for c in (QUICK_CONSTRAINTS if quick else THOROUGH_CONSTRAINTS)]
+    out += [("Or", o) for o in (QUICK_ORBOUNDS if quick else THOROUGH_ORBOUNDS)]
     return out
 
 
+_BOUNDS: dict = {}
+
+
 def make_bound(bid):
+    b = _BOUNDS.get(bid)
+    if b is None:
+        b = _BOUNDS[bid] = _make_bound(bid)
+    return b
+
+
+def _make_bound(bid):
     st = _st()
     kind, name = bid
     T, vals = st["T"], st["vals"]
@@ -448,7 +467,19 @@ def classify(bounds: list, sig: str) -> tuple:
         parts = small
     else:
         parts = participants(small, sig, sol)
-    return f"{kinds_text(parts)}|{relation_features(parts)}|{sig}", small, sol
+    rel = matching_feature(small) if sig.startswith("constraint:Any") else relation_features(parts)
+    return f"{kinds_text(parts)}|{rel}|{sig}", small, sol
+
+
+def matching_feature(bounds: list) -> str:
+    """For an Any answer to a constrained variable: how many declared constraints accept the other bounds' values
+    (all lower bounds if there are any, else all upper bounds) - 0, 1 or 2+ (2+ = 'ambiguous')."""
+    cons = [b for b in bounds if kind_of(b) == "O"]
+    if not cons:
+        return "-"
+    anchor = [b.value for b in bounds if kind_of(b) == "L"] or [b.value for b in bounds if kind_of(b) == "U"]
+    n = sum(1 for c in cons[-1].constraints if all(accepts(c, v) for v in anchor))
+    return f"matching:{'2+' if n >= 2 else n}"
 
 
 VALUE_SIGS = ("lower", "upper", "constraint:")
@@ -479,6 +510,7 @@ def report_sequence(ctx, seq: tuple, sig: str, text: str) -> None:
         f"bounds [{', '.join(bound_text(b) for b in small_ids)}] (in this order): no error, "
         f"{broken[0] if broken else text}"
     )
+    what = what.replace(__name__ + ".", "")
     ctx.violation(f"direct|{feats}", what, {"kind": "direct", "bounds": [list(b) for b in small_ids], "sig": sig})
 
 
@@ -520,9 +552,14 @@ def check_multiset(ctx, ids: tuple) -> None:
 def direct_part(ctx) -> None:
     bids = bound_ids(ctx.tier)
     ctx.count("bound_objects_in_pool", len(bids) if ctx.shard == 0 else 0)
+    demo = (("L", "bool"), ("L", "int"), ("O", "int,float"), ("U", "float"))
+    sol, nerr, _ = solve_once([make_bound(b) for b in demo])
+    ctx.sample({"direct": [bound_text(b) for b in demo], "solution": str(sol), "errors": nerr})
     idx = 0
     for size in (1, 2, 3, 4):
-        for ids in itertools.combinations_with_replacement(bids, size):
+        # resolve_bounds_map drops duplicate bounds first, so repetition is only enumerated up to size 3 in quick
+        gen = itertools.combinations if (size == 4 and ctx.quick) else itertools.combinations_with_replacement
+        for ids in gen(bids, size):
             idx += 1
             if not ctx.mine(idx):
                 continue
